@@ -158,3 +158,33 @@ def fit_object(obj, case, sample, X=None, y=None):
 
 def is_quantitative(obj, feature) -> bool:
     return feature in obj.quantitative_features
+
+
+def fit_base_discretizer(case, sample):
+    """The Discretizer a carver fits first (same feature lists, rankings, min_freq): its buckets are
+    the carver's base modalities. Returns Res(value=discretizer)."""
+    from AutoCarver.discretizers import Discretizer, GroupedList
+
+    quant, cat, ordi, rankings = feature_lists(case)
+    orders = {f: GroupedList(list(rankings[f])) for f in ordi}
+    disc = Discretizer(
+        quantitative_features=quant,
+        qualitative_features=cat,
+        min_freq=case["config"]["min_freq"],
+        ordinal_features=ordi,
+        values_orders=orders,
+        copy=True,
+    )
+    res = observe(disc.fit, sample.X.copy(), binary_view(case, sample).copy())
+    if res.ok:
+        res.value = disc
+    return res
+
+
+def binary_view(case, sample, level=None):
+    """Target as the discretizer sees it: the target itself, or (multiclass) a class indicator."""
+    if case["target"]["kind"] != "multiclass":
+        return sample.y
+    levels = sorted(str(v) for v in case["target"]["levels"])
+    level = levels[1] if level is None else str(level)
+    return (sample.y.astype(str) == level).astype(int)
